@@ -80,6 +80,8 @@ def dumpTA (theta : Q) (a : TA) : List String :=
   ++ rList (fun kl => toString kl.1 :: rList (fun l => [l.render]) kl.2) a.sd.lens
   ++ rList (fun kl => toString kl.1 :: rList (fun l => [renderOLen l]) kl.2) a.sd.ages
   ++ rList (fun kc => [toString kc.1, (a.sd.freq kc.1).render]) a.sd.counts
+  ++ rList (fun kc => [toString kc.1, match a.sd.meanLen kc.1 with | some q => q.render | none => "N",
+                       match a.sd.meanAge kc.1 with | some q => q.render | none => "N"]) a.sd.counts
   ++ rQs (scores a) ++ rQs (sums a)
   ++ [match mccIndex a with | some i => toString i | none => "-1"]
   ++ rList (fun s => [toString s]) (consensusOrder a.sd theta)
